@@ -1,4 +1,5 @@
 import RactorModel.Lemmas.Remote
+import RactorModel.Lemmas.Link
 import RactorModel.Extracted
 
 /-!
@@ -227,7 +228,143 @@ theorem close_removes_everything (cs : List Ctl) :
     (Mirror.run {} (cs ++ [.close])).proxies = [] ∧ (Mirror.run {} (cs ++ [.close])).members = [] := by
   simp [Mirror.run, List.foldl_append, Mirror.step]
 
+/-! ## the session under transport errors (`Model/Link.lean`) -/
+
+/-- (transport error ⇒ session closed) Over EVERY interleaving of sends, writer-task iterations
+(with any answers of the transport to `write_all` and `flush`), reads (frames or errors), the two
+actors handling their stop signals and control messages of the peer: once the transport has
+reported an error to the reader or to the writer task, the system at rest has no tcp session, no
+node session, no writer, no reader, no remote-actor proxy and no group membership of one, every
+send to a remote reference is refused — and no later event brings anything back. -/
+theorem transport_error_closes_session {F : Type} (evs more : List (Link.Ev F))
+    (hf : (Link.run ({} : Link.S F) evs).faulted = true) :
+    let s := Link.settle (Link.run {} evs)
+    s.sessUp = false ∧ s.nodeUp = false ∧ s.writerUp = false ∧ s.readerUp = false ∧
+      s.mirror.proxies = [] ∧ s.mirror.members = [] ∧ (∀ pid, Link.accepts s pid = false) ∧
+      Link.run s more = s := by
+  have hd := Link.settle_down _ (Link.inv_run evs _ Link.inv_init) hf
+  refine ⟨hd.sess, hd.node, hd.writer, hd.reader, by simp [hd.mirror], by simp [hd.mirror], ?_, Link.down_run more _ hd⟩
+  intro pid
+  simp [Link.accepts, hd.mirror]
+
+/-- (which errors count) In any reachable state: an error of `write_all`, an error of `flush`
+after a successful `write_all` (the writer task having a batch to write), and an error of a read
+(the reader running) each count as a reported transport error, whatever happens afterwards —
+so `transport_error_closes_session` applies to each of the three. -/
+theorem read_write_and_flush_errors_are_reported {F : Type} (evs rest : List (Link.Ev F)) :
+    let s := Link.run ({} : Link.S F) evs
+    (s.writerUp = true → s.chan ≠ [] → ∀ fl,
+      (Link.run (Link.step s (.writer .err fl)) rest).faulted = true) ∧
+    (s.writerUp = true → s.chan ≠ [] →
+      (Link.run (Link.step s (.writer .ok .err)) rest).faulted = true) ∧
+    (s.readerUp = true → (Link.run (Link.step s (.read .err)) rest).faulted = true) := by
+  have mono : ∀ (rest : List (Link.Ev F)) (t : Link.S F), t.faulted = true → (Link.run t rest).faulted = true := by
+    intro rest
+    induction rest with
+    | nil => intro t h; exact h
+    | cons e rest ih =>
+      intro t h
+      apply ih
+      cases e <;> simp only [Link.step] <;> (repeat' split) <;> simp_all
+  refine ⟨fun hw hc fl => mono _ _ ?_, fun hw hc => mono _ _ ?_, fun hr => mono _ _ ?_⟩
+  · cases fl <;> simp [Link.step, hw, hc]
+  · simp [Link.step, hw, hc]
+  · simp [Link.step, hr]
+
+/-- (the writer is a FIFO stage) every frame accepted by the writer channel is, in order, on the
+wire, lost in the one failed batch, or still queued; so what the transport carried is a prefix of
+what was sent, and it is everything once the channel is drained without an error. -/
+theorem writer_task_is_fifo {F : Type} (evs : List (Link.Ev F)) :
+    let s := Link.run ({} : Link.S F) evs
+    s.sent = s.wire ++ s.lost ++ s.chan ∧ s.wire <+: s.sent ∧
+      (s.faulted = false → s.chan = [] → s.wire = s.sent) := by
+  have h := Link.inv_run evs _ (Link.inv_init (F := F))
+  have hl : ∀ (evs : List (Link.Ev F)) (t : Link.S F), (t.lost ≠ [] → t.faulted = true) →
+      ((Link.run t evs).lost ≠ [] → (Link.run t evs).faulted = true) := by
+    intro evs
+    induction evs with
+    | nil => intro t h; exact h
+    | cons e evs ih =>
+      intro t h
+      apply ih
+      cases e <;> simp only [Link.step] <;> (repeat' split) <;> simp_all
+  refine ⟨h.acct, ⟨_, by rw [h.acct, List.append_assoc]⟩, fun hf hc => ?_⟩
+  have : (Link.run ({} : Link.S F) evs).lost = [] := by
+    have := hl evs {} (by simp)
+    cases hlost : (Link.run ({} : Link.S F) evs).lost with
+    | nil => rfl
+    | cons a l => simp [hlost] at this; simp [this] at hf
+  simp [h.acct, this, hc]
+
+/-- (the end of any stream closes the session) For EVERY byte stream, every way it is split into
+reads, every frame limit and decoder: the real reader loop (`Codec.readFrames`) ends with an
+error (EOF included), which counts as a transport error — the session closes at rest. -/
+theorem every_stream_end_closes_session {Msg : Type} (dec : Codec.Bytes → Option Msg) (max : Nat)
+    (chunks : List Codec.Bytes) :
+    let s := Link.settle (Link.run ({} : Link.S Msg) (Link.readerEvents dec max chunks))
+    s.sessUp = false ∧ s.nodeUp = false ∧ s.mirror.proxies = [] ∧ s.mirror.members = [] := by
+  have hf := Link.readerEvents_run (Codec.readFrames dec max chunks).1 ({} : Link.S Msg)
+    (Link.readFrames_stops dec max chunks) rfl
+  have := transport_error_closes_session (Link.readerEvents dec max chunks) [] hf
+  exact ⟨this.1, this.2.1, this.2.2.2.2.1, this.2.2.2.2.2.1⟩
+
+/-- (frames survive any fragmentation) Whatever batches the writer task wrote (`ps` = the
+payloads of all frames in order, each within the limit) and however the transport splits the
+byte stream into reads — inside a header, inside a payload with the bytes of the next frames
+already available, empty reads — the node session receives exactly the decoded payloads, in
+order, before the EOF. -/
+theorem frames_reach_node_session_under_any_fragmentation {Msg : Type} (dec : Codec.Bytes → Option Msg)
+    (max : Nat) (ps : List Codec.Bytes) (chunks : List Codec.Bytes)
+    (hs : chunks.flatten = ps.flatMap Codec.encodeFrame)
+    (hmax : ∀ p ∈ ps, p.length ≤ max ∧ p.length ≤ Codec.isizeMax) (hdec : ∀ p ∈ ps, (dec p).isSome) :
+    (Link.run ({} : Link.S Msg) (Link.readerEvents dec max chunks)).recvd = ps.filterMap dec := by
+  have h := Link.readerEvents_recvd (Codec.readFrames dec max chunks).1 ({} : Link.S Msg)
+    (Link.readFrames_stops dec max chunks) rfl rfl rfl
+  unfold Link.readerEvents
+  refine h.trans ?_
+  rw [Link.readFrames_encode dec max ps chunks hs hmax hdec, Link.oks_okOf dec ps hdec]
+  simp [Link.oks]
+
+/-- the oracle `Link.okDown` holds of the model: at rest after a reported transport error nothing
+is running, in a group or accepting sends -/
+theorem okDown_model {F : Type} (evs : List (Link.Ev F)) (pids : List Nat) :
+    let s := Link.settle (Link.run ({} : Link.S F) evs)
+    Link.okDown (Link.run ({} : Link.S F) evs).faulted true s.mirror.proxies.length s.mirror.members.length
+      (pids.countP (Link.accepts s)) = true := by
+  cases hf : (Link.run ({} : Link.S F) evs).faulted with
+  | false => simp [Link.okDown]
+  | true =>
+    have := transport_error_closes_session evs [] hf
+    simp only [Link.okDown, this.2.2.2.2.1, this.2.2.2.2.2.1]
+    simp [this.2.2.2.2.2.2.1]
+
 /-! ## non-vacuity -/
+
+/-- a flush error on a half-open connection: two proxies in groups, a cast is queued, `write_all`
+succeeds, `flush` fails; at rest everything is gone -/
+example :
+    let s := Link.run ({} : Link.S Nat)
+      [.ctl (.spawn [1, 2]), .ctl (.pgJoin "" "g" [1]), .send 7, .writer .ok .ok, .send 8, .writer .ok .err]
+    s.faulted = true ∧ s.wire = [7] ∧ s.lost = [8] ∧ s.mirror.proxies = [1, 2] ∧
+      (Link.settle s).mirror.proxies = [] ∧ (Link.settle s).mirror.members = [] ∧ Link.accepts s 1 = true ∧
+      Link.accepts (Link.settle s) 1 = false := by decide
+
+/-- what the theorem excludes (seeded change C20-9): a writer task that only logs a failed flush
+leaves session and proxies up -/
+example :
+    let stepLogOnly : Link.S Nat → Link.Ev Nat → Link.S Nat := fun s e =>
+      match e with
+      | .writer .ok .err => { s with chan := [], lost := s.lost ++ s.chan }
+      | e => Link.step s e
+    let s := [Link.Ev.ctl (.spawn [1]), .send 8, .writer .ok .err, .sessionStops, .nodeNotices].foldl stepLogOnly {}
+    s.sessUp = true ∧ s.mirror.proxies = [1] := by decide
+
+/-- a two-frame stream split inside the second payload and inside the second header -/
+example :
+    let dec : Codec.Bytes → Option Nat := fun p => some p.length
+    let stream := Codec.encodeFrame [1, 2, 3] ++ Codec.encodeFrame [4, 5]
+    (Link.run ({} : Link.S Nat) (Link.readerEvents dec 16 [stream.take 9, stream.drop 9 |>.take 6, stream.drop 15])).recvd
+      = [3, 2] := by decide
 
 /-- two outstanding calls from two senders, replies arriving in the opposite order, one
 caller abandoning, through 3 forward and 2 backward stages -/
@@ -285,5 +422,11 @@ example :
 #print axioms C20.remote_membership_is_image_keys
 #print axioms C20.remote_membership_at_ready
 #print axioms C20.close_removes_everything
+#print axioms C20.transport_error_closes_session
+#print axioms C20.read_write_and_flush_errors_are_reported
+#print axioms C20.writer_task_is_fifo
+#print axioms C20.every_stream_end_closes_session
+#print axioms C20.frames_reach_node_session_under_any_fragmentation
+#print axioms C20.okDown_model
 
 end C20
